@@ -11,7 +11,7 @@ from vlib.runner import Outcome, call
 ID = "C01"
 RULE = (
     "Hypothesis-generated tables with exactly the 20 motl fields in a drawn column permutation (identity <= ~10%), "
-    "N in 1..12 drawn element-wise plus optional PRNG bulk rows up to 300, values: floats in float32 range with "
+    "N in 1..12 drawn element-wise plus optional PRNG bulk rows up to 300, DataFrame row labels default / reversed / offset / strided / rotated, values: floats in float32 range with "
     "magnitudes 1e-30..1e30, integers > 2^24, exact float32 values, NaN holes; write path in {Motl.write_out(p), "
     "Motl.write_out(p,'emmotl'), EmMotl(df).write_out, Motl.load(df).write_out}; read path in {Motl.load, EmMotl}. "
     "Oracle: own EM byte parser (type float32, dims 20 x N x 1, file length 512+80N, cell(i,j)==float32(df[name_j][i]), NaN->0) "
@@ -83,6 +83,7 @@ def run(case):
         out.label("has_nan")
     if t.get("bulk"):
         out.label("bulk")
+    out.label(f"index:{t.get('index', 'default')}")
     observable = any(len(set(r.tolist())) > 1 for r in expect)
     out.nontrivial = (not ident) and n >= 2 and observable
 
